@@ -546,3 +546,30 @@ _TPJ_LOOP = '        let mut message = crate::alloc::String::new();\n        for
 M('c03-msgloop-skip-first', [(TD, _TPJ_OLD, _TPJ_LOOP.replace('errors.iter().enumerate()', 'errors.iter().enumerate().skip(1)'))], {'C03': r'R03\.3', 'C08': r'R08\.4'})
 M('c03-msgloop-break', [(TD, _TPJ_OLD, _TPJ_LOOP.replace("message.push_str(&error.to_string());", "message.push_str(&error.to_string());\n            break;"))], {'C03': r'R03\.3', 'C08': r'R08\.4'})
 M('c03-msgloop-first-only', [(TD, _TPJ_OLD, _TPJ_LOOP.replace("message.push_str(&error.to_string());", "if index == 0 { message.push_str(&error.to_string()); }"))], {'C03': r'R03\.3', 'C08': r'R08\.4'})
+
+# ---- rules added for the third round of seeds ---------------------------------------------------------------------------------
+M('c13-chain-drop-in-place', [('src/value_chain.rs', '''        if let Some(node) = self.root.take() {
+            drop(node.value);
+            let mut cell = node.next;
+
+            while let Some(node) = cell.take() {
+                drop(node.value);
+                cell = node.next;
+            }
+        }''', '''        let mut cell = &mut self.root;
+
+        while let Some(node) = cell.get_mut() {
+            node.value = Value::Send(Box::new(()));
+            cell = &mut node.next;
+        }''')], {'C13': r'R13\.7'})
+M('c12-tuple-eager-outputs', [('src/output/deep/tuples.rs', '''                    Some(($(self.$i.output()?),+,))''', '''                    let outputs = ($(self.$i.output()),+,);
+                    Some(($(outputs.$i?),+,))''')], {'C12': r'R12\.8', 'C17': r'R17\.3'})
+M('c05-handle-error-stale', [(LIB, '''        match result {
+            Ok(value) => value,
+            Err(error) => self.induce_panic(error),''', '''        match self.shared_state.clone_panic_reasons().into_iter().next().map_or(result, Err) {
+            Ok(value) => value,
+            Err(error) => self.induce_panic(error),''')], {'C05': r'R05\.8', 'C08': r'R08\.1'})
+M('c09-record-only-clones', [(LIB, '''    fn induce_panic(&self, error: error::MockError) -> ! {''', '''    fn induce_panic(&self, error: error::MockError) -> ! {
+        if self.original_instance {
+            panic!("{error}");
+        }''')], {'C09': r'R09\.recorded', 'C08': r'R08\.[12]'})
